@@ -194,12 +194,19 @@ func (c *Ctx) preRunGuard(conds []condEdge) string {
 			}
 			ce = condEdge{cond: u.X, taken: !ce.taken}
 		}
+		// (a value carried in a row of a local table is what was put there)
+		if r := resolve(ce.cond); r != ce.cond {
+			if _, isField := r.(*ssa.Field); !isField {
+				ce = condEdge{cond: r, taken: ce.taken}
+			}
+		}
 		switch x := ce.cond.(type) {
 		case *ssa.Call:
 			n := calleeName(x.Common())
 			switch {
-			case n == "(*github.com/spf13/pflag.FlagSet).Changed":
-				f, _ := constString(x.Call.Args[1])
+			case n == "(*github.com/spf13/pflag.FlagSet).Changed" && len(x.Call.Args) >= 1:
+				// (the flag name is the last argument, whether the receiver is passed explicitly or bound)
+				f, _ := constStringDeep(x.Call.Args[len(x.Call.Args)-1])
 				p = "Changed(" + f + ")"
 			case strings.HasPrefix(n, "slices.Contains"):
 				ch, _ := fieldPath(x.Call.Args[0])
@@ -340,10 +347,10 @@ func r202(c *Ctx) {
 	changedOf := func(flag string) func(in ssa.Instruction) bool {
 		return func(in ssa.Instruction) bool {
 			call, ok := in.(*ssa.Call)
-			if !ok || calleeName(call.Common()) != "(*github.com/spf13/pflag.FlagSet).Changed" {
+			if !ok || calleeName(call.Common()) != "(*github.com/spf13/pflag.FlagSet).Changed" || len(call.Call.Args) == 0 {
 				return false
 			}
-			f, _ := constString(call.Call.Args[1])
+			f, _ := constStringDeep(call.Call.Args[len(call.Call.Args)-1])
 			return f == flag
 		}
 	}
@@ -412,7 +419,7 @@ func r202(c *Ctx) {
 		if u, ok := w.val.(*ssa.UnOp); ok && isLoadOfField(u.X, tlsEn) {
 			for _, ce := range dominatingConds(w.instr.Block()) {
 				if call, ok := ce.cond.(*ssa.Call); ok && !ce.taken && calleeName(call.Common()) == "(*github.com/spf13/pflag.FlagSet).Changed" {
-					if f, _ := constString(call.Call.Args[1]); f == "forward-headers" {
+					if f, _ := constStringDeep(call.Call.Args[len(call.Call.Args)-1]); len(call.Call.Args) > 0 && f == "forward-headers" {
 						okF = true
 					}
 				}
